@@ -86,8 +86,10 @@ def make_closures(c1, c2):
     return c1
 
   def only_c2(a):
-    while a > c2 + 2:
+    k = 0
+    while a > c2 + 2 and k < 3:      # (bounded: an unbounded symbolic trip count cannot be exhausted)
       a = a - 1
+      k = k + 1
     return (a, c2)
 
   lam = lambda a, b=c2: (a, b, c1) if a > b else (b, a, c1)
